@@ -71,6 +71,24 @@ func H_C08_RemoveNodes() {
 	rt.Assert(roots, "C08.remove.exact.roots")
 }
 
+// H_C08_RemoveRoots: several root elements, several identifiers to remove (adjacent, repeated, absent).
+func H_C08_RemoveRoots() {
+	a := mkList("a", 2, rt.Bound("NR", 3, 3), rt.Bound("ER", 1, 1), 1, rt.Bound("RR", 2, 3), 2)
+	rt.Assume(wf(a))
+	before := cloneList(a)
+	rm := []string{rt.NondetString("rm0"), rt.NondetString("rm1")}
+	a.RemoveNodes(rm)
+	rt.Assert(wf(a), "C08.removeroots.wf")
+	roots := true
+	for _, r := range a.RootElements {
+		roots = rt.And(roots, rt.Not(rt.StrIn(r, rm)), rt.StrIn(r, before.RootElements))
+	}
+	for _, r := range before.RootElements {
+		roots = rt.And(roots, rt.Implies(rt.Not(rt.StrIn(r, rm)), rt.StrIn(r, a.RootElements)))
+	}
+	rt.Assert(roots, "C08.removeroots.exact")
+}
+
 func H_C08_Union() {
 	a, b := c08pair()
 	r := a.Union(b)
